@@ -223,7 +223,8 @@ theorem blocker_pending (fs : FState) (js : JState) (w : World) (hg : G fs w) (h
     when its command phase starts -/
 theorem eligible_start (fs : FState) (js : JState) (w : World) (hg : G fs w) (hcp : Cpl fs js) (hl : LiveOK js w)
     (hfl : FlagSound w) (u : Nat) (hlive : live (js.us.get u) = true)
-    (hc : complete (js.us.get u).charMode ((js.us.get u).pending ++ (js.us.get u).fresh) = true) :
+    (hc : complete (js.us.get u).charMode ((js.us.get u).pending ++ (js.us.get u).fresh) = true)
+    (hno : (cmdPhaseStart w).overflow = false) :
     elig (cmdPhaseStart w) u = true := by
   -- the state after the turn grant
   have hg0 : G fs { w with cycle := w.cycle + 1, users := grantAll w.users w.slots } :=
@@ -234,7 +235,7 @@ theorem eligible_start (fs : FState) (js : JState) (w : World) (hg : G fs w) (hc
     grantAll_flag w.users w.slots hfl
   obtain ⟨hi, _⟩ := hl u hlive
   -- after process_io
-  obtain ⟨hg2, hd2⟩ := G_processIO fs _ hg0
+  obtain ⟨hg2, hd2⟩ := G_processIO fs _ hg0 hno
   have hfold : (processIO { w with cycle := w.cycle + 1, users := grantAll w.users w.slots }).2.foldl fifoStep fs = fs := by
     unfold processIO; dsimp only; split <;> rfl
   rw [hfold] at hg2
